@@ -28,6 +28,9 @@ import traceback
 # every sub-check's quick example count is multiplied by this (the per-module counts were tuned on a loaded machine;
 # on 16 idle cores the quick tier of a property still finishes in well under a minute)
 QUICK_SCALE = float(os.environ.get("VERIF_QUICK_SCALE", "3"))
+# thorough tier: per-module counts x this, in 4 independently seeded shards per sub-check (a full thorough pass over
+# the 20 properties at scale 1 took about 65 minutes of wall time on 16 cores and 5.0 million oracle evaluations)
+THOROUGH_SCALE = float(os.environ.get("VERIF_THOROUGH_SCALE", "2"))
 
 VERIF_DIR = os.path.dirname(os.path.dirname(os.path.abspath(__file__)))
 REPO_DIR = os.environ.get("VERIF_REPO", "/repo")
@@ -197,6 +200,8 @@ def _job(mod_name, sub_name, tier, seed, shard, known_open, conn):
         n = sub.quick if tier == "quick" else sub.thorough
         if tier == "quick" and sub.quick >= 20:
             n = int(n * QUICK_SCALE)
+        if tier == "thorough" and sub.thorough >= 20:
+            n = int(n * THOROUGH_SCALE)
         if tier == "quick" and sub.shards_quick > 1:
             # Hypothesis' draws within one run are correlated (it mutates earlier examples), so a small option space
             # can be covered very unevenly by a single run: split the quick budget over independently seeded runs
